@@ -18,14 +18,14 @@
 /// logic.
 
 #[test]
-fn kani_concrete_playback_c12_key_plain_3_14911166353111975896() {
+fn kani_concrete_playback_c12_key_plain_3_1128612118360464909() {
     let concrete_vals: Vec<Vec<u8>> = vec![
-        // 95
-        vec![95],
-        // 54
-        vec![54],
-        // 95
-        vec![95],
+        // 48
+        vec![48],
+        // 88
+        vec![88],
+        // 69
+        vec![69],
     ];
     kani::concrete_playback_run(concrete_vals, c12_key_plain_3);
 }
